@@ -1,6 +1,7 @@
 import Driver.HMsgpack
 import CtyModel.d16Num
 import CtyModel.d16Marshal
+import CtyModel.d16Parse
 import CtyModel.ConvertSet
 import CtyModel.ConvertD08Env
 open CtyModel
@@ -13,6 +14,7 @@ open CtyModel.Msgpack
 * `d16.numclass <num>` → `Msgpack.textRouteClass` (which numbers the text-route theorems cover)
 * `d16.unmarshaln <item> <ty> ((x<raw> x<nfc>)*)` → as `mp.unmarshal`, with Unicode normalisation given as a
   table computed by the real `norm.NFC` (strings not in the table are fixed points)
+* `d16.parse x<hex>` → `Msgpack.parseNumberE`: `cty.ParseNumberVal` with exponents (`mp.parse` answers `unmodelled` there)
 * `d16.shape <value> <ty> <oracle>` → for a conforming value: do the hypotheses of `C16.marshal_total_partial`
   hold (`wf`, `shapeP`) and is the model's answer a value or an error (the harness expects `true` three times for
   every value built through cty's constructors); `unmodelled` for a non-conforming one
@@ -65,6 +67,9 @@ def handleD16 : Handler := fun op args =>
     let tbl ← decOracle o
     pure (if !Convert.stringsModelled v.v then "unmodelled"
           else resTag (fun it => toString (itemToSexp it)) (marshalC (extOf tbl) Convert.driverEnv 64 v t))
+  | "d16.parse", [x] => do
+    let x ← Sexp.decStr x
+    pure (resTag (fun n => toString n.toSexp) (parseNumberE x))
   | "d16.shape", [v, t, o] => do
     let v ← Value.ofSexp v
     let t ← Ty.ofSexp t
